@@ -185,7 +185,7 @@ P("C10", "proof", "Lean 4 theorems for Unix (laws F/R + append lemma) + model/co
   "mirror image (unix_ends_with_iff); strip_prefix succeeds exactly when starts_with holds "
   "(unix_strip_iff_starts), the remainder's components are the path's after the base's (unix_strip_comps) and the "
   "base joined with the remainder equals the path (unix_strip_join); for a relative b and non-empty a, a joined with "
-  "b starts with a and stripping a yields b's components minus a leading `.` (unix_join_starts_strip). For BOTH encodings and all byte strings: starts_with / ends_with hold exactly when the component texts of the base are a leading / trailing run of the path's component texts, and strip_prefix succeeds exactly when starts_with holds (C10b.starts_with_iff_texts, ends_with_iff_texts, strip_iff_starts) — a prefix component's text being its raw spelling is K2. For Windows paths that do not start like a prefix the tests are exactly leading / trailing runs of components, in particular for equal paths (win_starts_with_iff, win_ends_with_iff, win_starts_ends_of_eq), and a join starts with its base (win_join_starts_pf, win_join_starts_prefixed, win_join_name_starts); when the stripped remainder does not start like a prefix either, the path's components are the base's followed by the remainder's and the base joined with the remainder equals the path (C10c.win_strip_comps_pf, win_strip_join_pf), and join-then-strip gives back the argument's components minus a leading `.` (win_join_strip_pf).",
+  "b starts with a and stripping a yields b's components minus a leading `.` (unix_join_starts_strip). For BOTH encodings and all byte strings: starts_with / ends_with hold exactly when the component texts of the base are a leading / trailing run of the path's component texts, and strip_prefix succeeds exactly when starts_with holds (C10b.starts_with_iff_texts, ends_with_iff_texts, strip_iff_starts) — a prefix component's text being its raw spelling is K2. For Windows paths that do not start like a prefix the tests are exactly leading / trailing runs of components, in particular for equal paths (win_starts_with_iff, win_ends_with_iff, win_starts_ends_of_eq), and a join starts with its base (win_join_starts_pf, win_join_starts_prefixed, win_join_name_starts); when the stripped remainder does not start like a prefix either, the path's components are the base's followed by the remainder's and the base joined with the remainder equals the path (C10c.win_strip_comps_pf, win_strip_join_pf), and join-then-strip gives back the argument's components minus a leading `.` (win_join_strip_pf). The same for a path and base that both carry a complete non-verbatim prefix (disk, device namespace, UNC with a share), whatever follows it and however the rest is spelled: C10c.win_strip_split_prefixed, win_strip_join_prefixed (a rooted remainder after a bare prefix included).",
   "Partial: on Windows the statement is false in two known ways — prefix components are compared by spelling (K2, "
   "proved as win_starts_with_K2_witness) and a remainder / base beginning with two separators re-parses as a UNC "
   "prefix (K3) — and the verbatim-prefixed cases (where re-reading the remainder changes what `.` and `/` mean) are not proved; "
